@@ -435,7 +435,8 @@ def check(prop, tier):
             dest = os.path.join(VERIF, "failures", prop, os.path.basename(path))
             shutil.copy(path, dest)
             path = dest
-        out_violations.append((path, tag, detail))
+        if not any(p == path and t == tag for p, t, _ in out_violations):
+            out_violations.append((path, tag, detail))
 
     # 3. evidence
     labels = stats["labels"]
@@ -466,8 +467,11 @@ def check(prop, tier):
         "wall_s": round(time.time() - t0, 2),
         "violations": len(out_violations),
     }
-    os.makedirs(os.path.join(VERIF, "evidence"), exist_ok=True)
-    with open(os.path.join(VERIF, "evidence", prop + ".json"), "w") as f:
+    # MVH_EVIDENCE_DIR: only tools/seeded.py sets it, so that runs against a deliberately broken tree
+    # do not replace the evidence of the real tree
+    evdir = os.environ.get("MVH_EVIDENCE_DIR") or os.path.join(VERIF, "evidence")
+    os.makedirs(evdir, exist_ok=True)
+    with open(os.path.join(evdir, prop + ".json"), "w") as f:
         json.dump(ev, f, indent=1)
     shutil.rmtree(work, ignore_errors=True)
 
